@@ -215,6 +215,9 @@ func main() {
 			if !o.Returned {
 				break // a hung run leaves a spinning goroutine behind: do not pile them up
 			}
+			if o.GateKind == "external-blocked" {
+				break // the program blocks before its k-th gate: there are no later instants either
+			}
 		}
 	}
 }
